@@ -24,6 +24,35 @@ def enc_acts(tr):
     return ",".join(proto.enc_s(str(x)) for x in tr)
 
 
+def relocate_punct(rng, t, system):
+    """punctuation attached low and far from where it stands (as in TIGER/NeGra style annotation before punctuation_root):
+    the tree is discontinuous only because of it.  Returns (tree, relocated?)"""
+    from impl import transform, treeanalysis
+    t0 = clone(t)
+    cons = [x for x in trees.preorder(t) if x.children and x is not t]
+    moved = False
+    for x in trees.terminals(t):
+        if rng.random() < 0.3 and cons:
+            x.data['word'] = rng.choice([",", "\"", "."])
+            x.data['label'] = {",": "$,", ".": "$."}.get(x.data['word'], "$(")
+            tgt = rng.choice(cons)
+            if x.parent is not tgt and len(x.parent.children) > 1 and not any(a is x for a in trees.dominance(tgt)):
+                x.parent.children.remove(x)
+                tgt.children.append(x)
+                x.parent = tgt
+                moved = True
+    if system != "gap":
+        # topdown / inorder are defined on continuous trees: the punctuation must be all that crosses
+        try:
+            with quiet():
+                ok = treeanalysis.gap_degree(transform.punctuation_root(clone(t))) == 0
+        except Exception:
+            ok = False
+        if not ok:
+            return t0, False
+    return t, moved
+
+
 def one(rng, system):
     disc = system == "gap" and rng.random() < 0.7
     cfg = treegen.Cfg(n_min=1, n_max=10, disc=disc, p_disc=0.5, p_unary=0.25, p_punct=0.1,
@@ -36,9 +65,14 @@ def one(rng, system):
         if rng.random() < 0.4:
             x.data['label'] = "C\u00a0D"
     calls = []
-    if rng.random() < 0.3:
+    relocated = False
+    if len(trees.unordered_terminals(t)) >= 3 and rng.random() < 0.2:
+        t, relocated = relocate_punct(rng, t, system)
+    if not relocated and rng.random() < 0.3:          # (below a top node the punctuation would leave holes in the old root)
         calls.append(("add_topnode", {}))
     calls.append(rng.choice(HEADS))
+    if relocated:
+        calls.append(("punctuation_root", {}))          # after the heads were marked (the tree has been looked at)
     if system != "inorder":
         calls.append(("binarize", {}))
     if rng.random() < 0.15:
@@ -116,10 +150,13 @@ def cli_case(rng):
     k = rng.randint(1, 3)
     text = ""
     ts = []
+    relocate = rng.random() < 0.35
     for i in range(k):
-        cfg = treegen.Cfg(n_min=1, n_max=7, disc=(system == "gap"), p_disc=0.5, p_unary=0.2, p_punct=0.0, none_fields=False,
+        cfg = treegen.Cfg(n_min=(3 if relocate else 1), n_max=7, disc=(system == "gap"), p_disc=0.5, p_unary=0.2, p_punct=0.0, none_fields=False,
                           labels=treegen.PLAIN_LABELS, words=["a", "b", "Haus", "der", "10.000", "x-y"], max_arity=4, edges=["HD", "NK", "--"])
         t = treegen.gen_tree(rng, cfg)
+        if relocate:
+            t, _ = relocate_punct(rng, t, system)
         t.data['sid'] = i + 1
         s = io.StringIO()
         from impl import treeoutput
@@ -132,7 +169,12 @@ def cli_case(rng):
     std = ["negra_mark_heads"] + ([] if system == "inorder" else ["binarize"])
     trans = list(std)
     # the command applies what --transform lists, in the order listed, each occurrence once
-    if rng.random() < 0.6:
+    if relocate:
+        # heads first (the tree is looked at), then the punctuation is moved to the root, then the rest
+        trans = ["negra_mark_heads", "punctuation_root"] + ([] if system == "inorder" else ["binarize"])
+        if rng.random() < 0.3:
+            trans = ["punctuation_root"] + std
+    elif rng.random() < 0.6:
         for extra in rng.sample(["root_attach", "add_topnode", "collapse_unary_chains", "punctuation_root", "negra_mark_heads"],
                                 rng.randint(1, 2)):
             trans.insert(rng.randint(0, len(trans)), extra)
